@@ -124,6 +124,8 @@ Check(e) ==
          ELSE <<>>
     \* a specified call (engine construction, calibration) raised: the calls are total on connected models
     [] e.ev = "raised" -> Fail(e.api \o ".raises")
+    \* C16 frame condition of a conversion / query: the source model is what it was before the call (deep snapshot by the recorder)
+    [] e.ev = "frame" -> IF e.same THEN <<>> ELSE Fail(e.api \o ".source_model_changed")
     [] OTHER -> Fail("unknown_event")
 
 \* events that set / advance the engine state
